@@ -92,6 +92,45 @@ fn collect(clients: &mut [Client], quiet: Duration, max: Duration) -> Vec<String
     v
 }
 
+/// Deterministic collection: client `sender` (first) and then every other live client sends a scrape of
+/// `hash` - served by the swarm worker that served the operation - and reads until that scrape's reply is
+/// back.  Channels between a swarm worker and a socket worker and between a socket worker and its
+/// connections are FIFO, so every message the operation caused has been read by then; no waiting on the clock.
+/// `op_scrapes`: scrape replies the operation itself causes on the sender's connection.
+fn fenced(clients: &mut [Client], sender: usize, hash: &[u8; 20], op_scrapes: usize) -> Vec<String> {
+    let req = format!(r#"{{"action":"scrape","info_hash":{}}}"#, js20(hash));
+    fenced_with(clients, sender, &req, op_scrapes)
+}
+
+/// as `fenced`, with the scrape request to use as the fence (a scrape operation is fenced by itself: its
+/// parts come from the same swarm workers, in order)
+fn fenced_with(clients: &mut [Client], sender: usize, req: &str, op_scrapes: usize) -> Vec<String> {
+    let mut v = Vec::new();
+    let order: Vec<usize> = std::iter::once(sender).chain((0..clients.len()).filter(|i| *i != sender)).collect();
+    for i in order {
+        let mut dead = false;
+        if let Some(conn) = clients[i].conn.as_mut() {
+            if !conn.send_text(req, 15000) { dead = true; }
+            let mut want = 1 + if i == sender { op_scrapes } else { 0 };
+            let t0 = std::time::Instant::now();
+            while !dead && want > 0 {
+                match conn.recv_text(Duration::from_millis(50)) {
+                    Ok(Some(t)) => {
+                        let m = msg_text(i, &t);
+                        if m.starts_with("S:") { want -= 1; if want == 0 { break; } }
+                        v.push(m);
+                    }
+                    Ok(None) => { if t0.elapsed() > Duration::from_secs(6) { dead = true; } }
+                    Err(_) => { dead = true; }
+                }
+            }
+        }
+        if dead { clients[i].conn = None; }
+    }
+    v.sort();
+    v
+}
+
 fn announce_json(hash: &[u8; 20], pid: &[u8; 20], event: &str, left: Option<usize>, offers: &Option<Vec<([u8; 20], u32)>>, answer: &Option<([u8; 20], [u8; 20], u32)>) -> String {
     let mut s = format!(r#"{{"action":"announce","info_hash":{},"peer_id":{}"#, js20(hash), js20(pid));
     if let Some(l) = left { s += &format!(r#","left":{}"#, l); }
@@ -180,7 +219,7 @@ pub fn run(out: &mut impl Write, seed: u64, cases: usize, _replay: &str, burst: 
                 let text = announce_json(&hash, &pid, &event, left, &offers, &answer);
                 let line = crate::wsstore::Op::Ann { fam: 4, consumer: 0, slot: ci as u32, allowed: true, now: 0, hash, pid, event, left, offers, answer }.text();
                 if !clients[ci].conn.as_mut().unwrap().send_text(&text, 15000) { clients[ci].conn = None; }
-                let got = collect(&mut clients, Duration::from_millis(500), Duration::from_secs(5));
+                let got = fenced(&mut clients, ci, &hash, 0);
                 for m in &got {
                     let p: Vec<&str> = m.split(':').collect();
                     if p.len() == 6 && p[0] == "O" {
@@ -195,13 +234,14 @@ pub fn run(out: &mut impl Write, seed: u64, cases: usize, _replay: &str, burst: 
                 let req = if hs.len() == 1 && r.chance(50) { format!(r#"{{"action":"scrape","info_hash":{}}}"#, js20(&hs[0])) }
                           else { format!(r#"{{"action":"scrape","info_hash":[{}]}}"#, hs.iter().map(js20).collect::<Vec<_>>().join(",")) };
                 if !clients[ci].conn.as_mut().unwrap().send_text(&req, 15000) { clients[ci].conn = None; }
-                let got = collect(&mut clients, Duration::from_millis(500), Duration::from_secs(5));
+                let got = fenced_with(&mut clients, ci, &req, 1);
                 writeln!(out, "wscr 4 0 {} {} => {}", ci, hs.iter().map(|h| hex(h)).collect::<Vec<_>>().join(","), if got.is_empty() { "-".to_string() } else { got.join(" ") }).unwrap();
             } else if k < 92 {
                 let orderly = r.chance(50);
                 clients[ci].conn.take().unwrap().close(orderly);
-                std::thread::sleep(Duration::from_millis(400));
-                let got = collect(&mut clients, Duration::from_millis(100), Duration::from_secs(1));
+                std::thread::sleep(Duration::from_millis(600));
+                let alive = (0..clients.len()).find(|i| clients[*i].conn.is_some()).unwrap_or(0);
+                let got = fenced(&mut clients, alive, &hashes[0], 0);
                 writeln!(out, "wclose 4 0 {} => {}", ci, if got.is_empty() { "-".to_string() } else { got.join(" ") }).unwrap();
                 // a new connection under a fresh index
                 clients.push(Client { conn: WsConn::connect(server.port) });
@@ -209,7 +249,7 @@ pub fn run(out: &mut impl Write, seed: u64, cases: usize, _replay: &str, burst: 
                 // garbage on this connection: an error reply, nobody else is affected
                 let text = r.pick(&["{", "[1,2,3]", "{\"action\":\"announce\"}", "not json", "{\"action\":\"scrape\"}"]);
                 if !clients[ci].conn.as_mut().unwrap().send_text(text, 15000) { clients[ci].conn = None; }
-                let got = collect(&mut clients, Duration::from_millis(500), Duration::from_secs(5));
+                let got = fenced(&mut clients, ci, &hashes[0], 0);
                 writeln!(out, "wbad 4 0 {} {} => {}", ci, hex(text.as_bytes()), if got.is_empty() { "-".to_string() } else { got.join(" ") }).unwrap();
             }
         }
